@@ -67,6 +67,62 @@ def tried(pid):
     return " ".join(out)
 
 
+_RANGES = {}
+
+
+def _ranges(fname):
+    """[(first line, last line, qualified name)] of the functions and methods
+    of /repo/pymeeus/<fname> (current HEAD)."""
+    import ast
+    if fname not in _RANGES:
+        out = []
+        try:
+            tree = ast.parse(open(os.path.join("/repo/pymeeus", fname)).read())
+        except (OSError, SyntaxError):
+            tree = None
+
+        def walk(node, prefix):
+            for ch in ast.iter_child_nodes(node):
+                if isinstance(ch, (ast.FunctionDef, ast.ClassDef)):
+                    q = prefix + ch.name
+                    if isinstance(ch, ast.FunctionDef):
+                        out.append((ch.lineno, ch.end_lineno, q))
+                    walk(ch, q + ".")
+        if tree is not None:
+            walk(tree, "")
+        _RANGES[fname] = out
+    return _RANGES[fname]
+
+
+def touched(pid):
+    """Functions changed by the earlier attempts against this property
+    (file:function, most frequent first), located from the line numbers of
+    the hunks of their patches."""
+    import re
+    count = {}
+    for f in sorted(glob.glob(os.path.join(VERIF, "seeded", pid + "-*",
+                                           "patch.diff"))):
+        cur = ""
+        seen = set()
+        for ln in open(f, errors="replace"):
+            if ln.startswith("+++ b/"):
+                cur = os.path.basename(ln[6:].strip())
+            m = re.match(r"@@ -(\d+)(?:,(\d+))? ", ln)
+            if m:
+                mid = int(m.group(1)) + int(m.group(2) or 1) // 2
+                best = None
+                for a, b, q in _ranges(cur):
+                    if a - 3 <= mid <= b + 3 and (
+                            best is None or b - a < best[1] - best[0]):
+                        best = (a, b, q)
+                k = "%s:%s" % (cur, best[2] if best else "(module level)")
+                if k not in seen:
+                    seen.add(k)
+                    count[k] = count.get(k, 0) + 1
+    return ", ".join("%s (%d)" % kv for kv in sorted(
+        count.items(), key=lambda kv: (-kv[1], kv[0])))
+
+
 def main():
     tag, textfile = sys.argv[1], sys.argv[2]
     round_text = open(textfile).read()
@@ -81,8 +137,9 @@ def main():
         txt = TEMPLATE.format(wt=wt, out=out, pid=pid, title=p["title"],
                               statement=p["statement"],
                               quant=p["quantifier"]["text"],
-                              round_text=round_text.replace("{TRIED}",
-                                                            tried(pid)))
+                              round_text=round_text.replace(
+                                  "{TRIED}", tried(pid)).replace(
+                                  "{TOUCHED}", touched(pid)))
         with open(os.path.join(out, "prompt.txt"), "w") as f:
             f.write(txt)
         subprocess.run(["git", "-C", "/repo", "worktree", "add", "--detach",
